@@ -2,6 +2,8 @@
 import random, sys, tempfile, shutil, subprocess, difflib
 import xml.dom.minidom
 from vlib.common import *
+sys.path.insert(0, os.path.join(ROOT, 'gen'))
+import tables
 sys.path.insert(0, os.path.join(ROOT, 'pygen'))
 import docs as D
 
@@ -23,7 +25,7 @@ def round15(dump):
 def run(chk, replay=None):
     lib = build_lib()
     hx = build_hx('hx_roundtrip', lib)
-    leandir, ok, out, changed = standard_lean(chk, 'C02')
+    leandir, ok, out, changed = standard_lean(chk, 'C02', {'Cellml/Generated/Attributes.lean': tables.attributes_table(REPO)})
     chk.assumptions += [
         'the Lean part covers attribute text (the escaping applied to import URLs, the decoding of the predefined entities by an XML parser - libxml2, modelled - and well-formedness of a double-quoted attribute value) and the attributes of <unit> and <variable> that are left out when they have their default value (numbers abstract: whether a double survives its rendering is a hypothesis, see known finding C02-fifteen-digits); '
         'the structural round trip of every element and attribute is checked on the implementation (generated documents parsed, printed, parsed, printed), not modelled',
